@@ -1,0 +1,14 @@
+//go:build verif
+
+package sqlittle
+
+import (
+	sdb "github.com/alicebob/sqlittle/db"
+)
+
+// VerifWrap makes a high level DB from an already opened low level database.
+// Only compiled with `-tags verif`.
+func VerifWrap(d *sdb.Database) *DB { return &DB{db: d} }
+
+// VerifDatabase gives the low level database of a DB.
+func VerifDatabase(d *DB) *sdb.Database { return d.db }
